@@ -227,11 +227,40 @@ def run_job(ctx, job):
 
         hyp_search(ctx, "random", cases(), check_case, job["examples"])
     else:
-        def check_case(case):
-            run = S.run_case(case, want_readback=False)
-            return run.of("C09"), True, ["wire"]
+        @st.composite
+        def wire_cases(draw):
+            case = draw(c01.cases(job["op"]))
+            case["micro_first"] = draw(st.integers(0, 3)) == 0
+            return case
 
-        hyp_search(ctx, "wire", c01.cases(job["op"]), check_case, job["examples"], sample_of=c01.sample_of)
+        hyp_search(ctx, "wire", wire_cases(), lambda case: (check_wire(case), True, ["wire"] + (["wire.after-micro800"] if case.get("micro_first") else [])),
+                   job["examples"], sample_of=c01.sample_of)
+
+
+def check_wire(case):
+    """paths seen by the reference target during a generated scenario; optionally another driver object has talked to a Micro800
+    first (the route of one driver must not depend on what other drivers did)"""
+    if case.get("micro_first"):
+        from .. import harness
+        from ..refplc import RefPLC
+        from .c14 import MINI_PROJECT
+        from pycomm3 import LogixDriver
+        from pycomm3.exceptions import PycommError
+        t0 = RefPLC(MINI_PROJECT, {"/t": b"\x00" * 4}, {"identity": {"product_name": "2080-LC50-24QWB", "major": 12}, "expected_route": b""})
+        harness.install(t0)
+        try:
+            d = LogixDriver("192.168.1.77")
+            d.open()
+            d.read("t")
+            d.close()
+        except PycommError:
+            pass
+        finally:
+            harness.uninstall()
+    run = S.run_case(case, want_readback=False)
+    discs = run.of("C09")
+    discs += [Disc("route." + d.bucket, d.detail) for d in run.of("C15") if d.bucket.endswith(".route")]
+    return discs
 
 
 def check_random(c):
@@ -249,5 +278,4 @@ def replay(ctx, kind, case):
         return check_logical(case["kind"], case["value"], case["form"])
     if kind == "random":
         return check_random(case)
-    run = S.run_case(case, want_readback=False)
-    return run.of("C09")
+    return check_wire(case)
